@@ -71,6 +71,14 @@ PROPS = {
   "streams": [st("modes", 3000, 150000), eng(2000, 60000)],
   "trusted_base": ENGINE_TB, "assumptions": ENGINE_ASSUME,
  },
+ "C17": {
+  "module": "Zog.Props.C17",
+  "theorems": [P + "C17." + t for t in ["not_is_local", "negated_test_semantics", "plain_test_unchanged", "wellformed_isNot_clear", "required_last_wins", "optional_last_wins", "default_last_wins", "catch_last_wins", "tests_only_appended", "modifier_leaves_tests", "coercer_is_the_given_one", "not_codes_flip", "shared_schema_is_read_only"]],
+  "streams": [st("builder", 3000, 150000), eng(2000, 80000, "share"), st("preds", 500, 20000)],
+  "trusted_base": ["modelled, not verified: lean/Zog/Builder.lean mirrors string.go addTest/Not and the Required/Optional/Default/Catch setters of every primitive schema",
+                   "regenerated: Gen.notPairs (codes of every negatable string test, dumped from the compiled library), Gen.schemaWrites (go/ast)"] + ENGINE_TB,
+  "assumptions": ["well-typed fluent chains: after Not() only NotStringSchema methods are callable; discarding Not()'s result and calling another method is outside the property"],
+ },
  "C18": {
   "module": "Zog.Props.C18",
   "theorems": [P + "C18." + t for t in ["int_identity", "atoi_in_range", "nan_inf_rejected", "float_to_int_exact", "int32_in_range", "int32_same_number", "float32_no_overflow", "named_examples"]],
